@@ -60,6 +60,29 @@ def fnvalue(ex, st, fv, pos, kw, node):
     raise Unsupported("call through function value " + ast.dump(f)[:60], node)
 
 
+def ext_next(ex, st, pos, kw, node):
+    """next(<router>.generator) for Cycle routers: the generator is itertools.cycle(<router>.cycle), created in
+    Cycle.__init__ and never reassigned; ghost gen_pos(g) counts the items it has yielded (I-GEN, trusted)"""
+    g = pos[0]
+    arg = node.args[0]
+    if g.k != "ref" or g.h is None or g.h.kind != "gen" or not isinstance(arg, ast.Attribute):
+        raise Unsupported("next() on something that is not a declared generator attribute", node)
+    if g.h.name != "Cycle":
+        raise Unsupported("next() on generator kind " + str(g.h.name), node)
+    owner = ex.ev1(arg.value, st)
+    cyc = ex.read_field(st, owner, "cycle", node)
+    sq = ex.seq_of(cyc, st, node)
+    gp = ex.heap_get(st, "gen_pos")
+    n = gp[g.t]
+    ex.oblige(st, "def", "cycle-is-not-empty-so-next-cannot-raise-StopIteration", node, Len(sq) > 0)
+    st.assume(Len(sq) > 0)
+    ex.oblige(st, "def", "generator-position-non-negative", node, n >= 0)
+    st.assume(n >= 0)
+    ex.heap_set(st, "gen_pos", z3.Store(gp, g.t, n + 1))
+    ex.assumed_used.add("Cycle.generator is itertools.cycle(self.cycle): yields cycle[k % len(cycle)] as its k-th item; the cycle list is never mutated")
+    return [(st, ex.wrap_elem(At(sq, n % Len(sq)), ex.list_elem_ty(cyc), st))]
+
+
 def spec_baulk_probability(ex, st, e):
     """baulk_probability(fn, n): the value the baulking function fn returns for population n (the same
     uninterpreted function the executor uses for the call itself)"""
@@ -74,8 +97,11 @@ def declare(spec):
     spec.externals["random.random"] = ext_random
     spec.externals["random"] = ext_random
     spec.externals["$fnvalue"] = fnvalue
+    spec.externals["next"] = ext_next
+    spec.ghost["gen_pos"] = "int"
     TRUSTED.extend([
         "random.random() returns a float r with 0 <= r < 1 and touches only the random stream",
         "user-supplied callables (custom service discipline, server_priority_function, baulking functions, "
         "custom Distribution.sample) are total, return a value of the documented kind and write nothing in the simulation",
+        "itertools.cycle(lst) yields lst[k % len(lst)] as its k-th item (Cycle router); the list is not mutated after construction",
     ])
